@@ -1,4 +1,5 @@
 import JSL.Inv.EnvReach
+import JSL.Inv.DurStoch
 import JSL.Props.Example
 
 /-!
@@ -157,5 +158,22 @@ theorem c02_durations {ec : EnvCfg} {st : RewardStatic} {s0 σ : State} (hst : S
   rcases hrun with hdone | ⟨hp, m, hm, hid, hms⟩
   · exact hD.done j hj o ho hdone d ⟨oc, hoc, hk.1, hk.2, hd⟩
   · exact hD.running j hj o ho hp m hm hid hms d ⟨oc, hoc, hk.1, hk.2, hd⟩
+
+/-- **Stochastic durations: the value sampled when processing began.**  In every state an episode
+exposes, a completed operation whose configured duration is the stochastic object `sid` has a
+recorded interval of at least one of that object's samples `orc sid k` (`k ≥ 1`: the sample drawn by
+the `update()` at the start of processing) – exactly that sample when its machine has no outage
+configured; an operation in progress on a WORKING / OUTAGE machine is scheduled to end accordingly. -/
+theorem c02_stochastic_durations {ec : EnvCfg} {st : RewardStatic} {s0 σ : State} (hst : Start orc inst s0)
+    (h : Exposed orc inst ec st s0 σ) (j : JobState) (hj : j ∈ σ.jobs) (o : OpState) (ho : o ∈ j.ops)
+    (hrun : o.st = .done ∨ (o.st = .processing ∧ ∃ m ∈ σ.machines, m.id = o.machine ∧ (m.st = .working ∨ m.st = .outage)))
+    (oc : OpCfg) (hoc : oc ∈ inst.jobs.flatMap (·.ops)) (hk : oc.job = o.job ∧ oc.idx = o.idx) (sid : Nat)
+    (hd : oc.dur = .stoch sid) :
+    ∃ a b k, 1 ≤ k ∧ o.start = some a ∧ o.stop = some b ∧ a + orc sid k ≤ b ∧
+      ((∀ mc ∈ inst.machines, mc.id = o.machine → mc.outages = []) → b = a + orc sid k) := by
+  have hD := exposed_durS hst h
+  rcases hrun with hdone | ⟨hp, m, hm, hid, hms⟩
+  · exact hD.done j hj o ho hdone sid ⟨oc, hoc, hk.1, hk.2, hd⟩
+  · exact hD.running j hj o ho hp m hm hid hms sid ⟨oc, hoc, hk.1, hk.2, hd⟩
 
 end JSL
